@@ -1,5 +1,6 @@
 import TongoProofs.Lemmas.TlbSum
 import TongoProofs.Lemmas.TlbW5
+import TongoProofs.Lemmas.TlbDictCore
 /-! The generic round-trip induction over type descriptors (property C03, theorem `decode_encode`). -/
 namespace Tongo.Tlb
 open Tongo Tongo.Bits
@@ -183,18 +184,6 @@ theorem enc_bytes (n : Nat) (v : Val) (b b' : Builder)
   intro s hs
   have := Slice.readBytes_prepend s bs [] []
   simp only [List.append_nil, hd] at this
-  simp only [decode, Slice.prepend_isLibrary, hs, Bool.false_eq_true, ↓reduceIte, this,
-    bind, Outcome.bind, pure, Slice.prepend_nil]
-
-theorem enc_dictE (id : String) (v : Val) (b b' : Builder)
-    (hd : inDom env (f + 1) (.dictE id) v = true) (he : encode env (f + 1) (.dictE id) v b = .ok b') :
-    ∃ xs rs, b' = b.app xs rs ∧ RT (decode env (f + 1) (.dictE id)) (NG env (.dictE id)) v xs rs := by
-  cases v <;> simp only [inDom, Bool.false_eq_true] at hd
-  simp only [encode, Builder.writeBit] at he
-  have hb := Builder.writeBits_ok he
-  refine ⟨_, [], hb, RTs.toRT ?_ _⟩
-  intro s hs
-  have := Slice.readBit_prepend s false [] []
   simp only [decode, Slice.prepend_isLibrary, hs, Bool.false_eq_true, ↓reduceIte, this,
     bind, Outcome.bind, pure, Slice.prepend_nil]
 
@@ -415,7 +404,7 @@ theorem ref_content (h : Inv env f) (T : Ty) (v : Val) (b' : Builder)
     obtain ⟨xs, rs, hb, hrt⟩ := h.enc T v _ b' hwb hd he
     subst hb
     rw [RefOK, ofCell_app_empty]
-    obtain ⟨s', hs', _⟩ := hrt {} rfl (Or.inr ⟨rfl, rfl⟩)
+    obtain ⟨s', hs', _⟩ := hrt {} rfl (Or.inr ⟨rfl, rfl, rfl⟩)
     exact ⟨rfl, ⟨s', hs'⟩, fun hl => by cases hl⟩
   cases f with
   | zero => simp [inDom] at hd
@@ -714,7 +703,7 @@ theorem field_succ (h : Inv env f) (n : String) (ft : FieldTag) (T : Ty) (rest :
     have hr := Slice.readUint_prepend s tg.len tg.val [] [] hg.1
     simp only [List.append_nil, Nat.mod_eq_of_lt hg.2] at hr
     simp only [decodeField, Slice.prepend_isLibrary, hs, Bool.false_eq_true, ↓reduceIte, decodeMagic, hr,
-      ne_eq, not_true_eq_false, Slice.prepend_nil]
+      ne_eq, not_true_eq_false, Slice.prepend_nil, bind, Outcome.bind]
   · rw [encodeField_notMagic ft T v b hT] at he
     rw [inDomField_notMagic ft T v hT] at hd
     rcases hcase with ⟨rfl, hwb⟩ | ⟨rfl, hwr⟩ | ⟨m, t, rfl, rfl, hwb⟩ | ⟨m, t, rfl, rfl, hwr⟩
@@ -894,6 +883,393 @@ theorem fields_succ (h : Inv env f) (fs : Fields) (v : Val) (b b' : Builder)
         simp only [decodeFields, hdec1, bind, Outcome.bind, pure]
 
 
+theorem mapM_forall2 {α β} (f : α → Outcome β) : ∀ (l : List α) (r : List β),
+    mapMOutcome f l = .ok r → List.Forall₂ (fun a b => f a = .ok b) l r
+  | [], r, h => by simp only [mapMOutcome] at h; cases h; exact .nil
+  | a :: as, r, h => by
+    simp only [mapMOutcome] at h
+    obtain ⟨b, hb, h2⟩ := bind_ok_inv h
+    obtain ⟨bs, hbs, h3⟩ := bind_ok_inv h2
+    cases h3
+    exact .cons hb (mapM_forall2 f as bs hbs)
+
+theorem forall2_mapM {α β} (g : β → Outcome α) : ∀ (l : List α) (r : List β),
+    List.Forall₂ (fun a b => g b = .ok a) l r → mapMOutcome g r = .ok l
+  | _, _, .nil => rfl
+  | _, _, .cons h t => by
+    simp only [mapMOutcome, h, bind, Outcome.bind, forall2_mapM g _ _ t, pure]
+
+theorem zipKV_spec : ∀ (kbits : List Hashmap.Key) (vs : List Val) (kvs : List (Hashmap.Key × Val)),
+    kbits.length = vs.length → zipKV kbits vs = some kvs → kvs.map (·.1) = kbits ∧ kvs.map (·.2) = vs
+  | [], [], kvs, _, h => by simp only [zipKV] at h; cases h; exact ⟨rfl, rfl⟩
+  | [], _ :: _, _, hl, _ => by simp at hl
+  | _ :: _, [], _, hl, _ => by simp at hl
+  | k :: ks, v :: vs, kvs, hl, h => by
+    simp only [zipKV] at h
+    cases hr : zipKV ks vs with
+    | none => simp [hr] at h
+    | some r =>
+      simp only [hr, Option.map_some, Option.some.injEq] at h
+      obtain ⟨h1, h2⟩ := zipKV_spec ks vs r (by simpa using hl) hr
+      subst h
+      simp [h1, h2]
+
+theorem zipKV_some : ∀ (kbits : List Hashmap.Key) (vs : List Val), kbits.length = vs.length →
+    ∃ kvs, zipKV kbits vs = some kvs
+  | [], _, _ => ⟨[], by simp [zipKV]⟩
+  | _ :: _, [], hl => by simp at hl
+  | k :: ks, v :: vs, hl => by
+    obtain ⟨r, hr⟩ := zipKV_some ks vs (by simpa using hl)
+    exact ⟨(k, v) :: r, by simp [zipKV, hr]⟩
+
+theorem sorted_of_ascending : ∀ (kvs : List (Hashmap.Key × Val)),
+    strictlyAscending (kvs.map (·.1)) = true → Hashmap.SortedKV kvs
+  | [], _ => List.Pairwise.nil
+  | kv :: rest, h => by
+    simp only [List.map_cons, strictlyAscending, Bool.and_eq_true, List.all_eq_true] at h
+    refine List.Pairwise.cons ?_ (sorted_of_ascending rest h.2)
+    intro x hx
+    exact h.1 x.1 (List.mem_map_of_mem hx)
+
+theorem list_toList_id : ∀ (v : Val), Val.isList v = true → Val.list v.toList = v
+  | .nil, _ => rfl
+  | .cons h t, hl => by
+    simp only [Val.isList] at hl
+    simp [Val.toList, Val.list, list_toList_id t hl]
+  | .int _, hl => by simp [Val.isList] at hl
+  | .bool _, hl => by simp [Val.isList] at hl
+  | .bytes _, hl => by simp [Val.isList] at hl
+  | .bits _, hl => by simp [Val.isList] at hl
+  | .cell _, hl => by simp [Val.isList] at hl
+  | .sym _, hl => by simp [Val.isList] at hl
+  | .none, hl => by simp [Val.isList] at hl
+  | .magic, hl => by simp [Val.isList] at hl
+
+
+
+theorem mapM_inverse {α β} (f : α → Outcome β) (g : β → Outcome α) : ∀ (l : List α) (r : List β),
+    (∀ a ∈ l, ∀ b, f a = .ok b → g b = .ok a) → mapMOutcome f l = .ok r → mapMOutcome g r = .ok l
+  | [], r, _, h => by simp only [mapMOutcome] at h; cases h; rfl
+  | a :: as, r, hall, h => by
+    simp only [mapMOutcome] at h
+    obtain ⟨b, hb, h2⟩ := bind_ok_inv h
+    obtain ⟨bs, hbs, h3⟩ := bind_ok_inv h2
+    cases h3
+    have h1 := hall a (List.mem_cons_self ..) b hb
+    have h2 := mapM_inverse f g as bs (fun a' ha' => hall a' (List.mem_cons_of_mem _ ha')) hbs
+    simp only [mapMOutcome, h1, h2, bind, Outcome.bind, pure]
+
+theorem mapM_map {α β γ} (g : β → Outcome γ) (p : α → β) : ∀ (l : List α),
+    mapMOutcome (fun a => g (p a)) l = mapMOutcome g (l.map p)
+  | [] => rfl
+  | a :: as => by simp only [mapMOutcome, List.map_cons, mapM_map g p as]
+
+theorem mapM_length {α β} (f : α → Outcome β) (l : List α) (r : List β) (h : mapMOutcome f l = .ok r) :
+    r.length = l.length := (mapM_forall2 f l r h).length_eq.symm
+
+theorem cellTy_eq (c : Cell) : cellTy c = c.ty := by cases c; rfl
+
+theorem empty_prepend (xs : List Bool) (rs : List Cell) : ({} : Slice).prepend xs rs = { bits := xs, refs := rs } := by
+  simp [Slice.prepend]
+
+/-- the payload of a dictionary value as the encoder writes it into a leaf -/
+def dictPay (env : Env) (f : Nat) (t : Ty) (x : Val) : List Bool × List Cell :=
+  match encode env f t x Builder.empty with
+  | .ok vb => (vb.bits, vb.refs)
+  | _ => ([], [])
+
+theorem foldl_addRef_ok : ∀ (refs : List Cell) (b b' : Builder),
+    refs.foldlM (fun b r => b.addRef r) b = .ok b' → b' = b.app [] refs
+  | [], b, b', h => by simp only [List.foldlM, pure] at h; cases h; simp
+  | r :: rs, b, b', h => by
+    simp only [List.foldlM] at h
+    obtain ⟨b1, hb1, h2⟩ := bind_ok_inv h
+    have h1 := Builder.addRef_ok hb1
+    have h3 := foldl_addRef_ok rs b1 b' h2
+    rw [h3, h1, Builder.app_app]; simp
+
+/-- what the domain of a non-empty dictionary value and C05's round trip give: the tree the encoder builds decodes
+back to the same entries, and the entries to the same value -/
+theorem dict_core (h : Inv env f) (k t : Ty) (n : Nat) (hwk : wfb env k = true) (hwt : wfb env t = true)
+    (v : Val) (ks vs : List Val) (hp : dictParts v = some (ks, vs))
+    (hd : dictDom (some n) (fun x => inDom env f k x) (fun x => inDom env f t x)
+      (fun x => encode env f k x Builder.empty) (fun x => encode env f t x Builder.empty) v = true)
+    (hemp : ¬ ks.isEmpty = true) (kbits : List Hashmap.Key)
+    (hkb' : mapMOutcome (fun kv => (encode env f k kv Builder.empty).bind fun kb => .ok kb.bits) ks = .ok kbits)
+    (kvs : List (Hashmap.Key × Val)) (hz : zipKV kbits vs = some kvs) :
+    ∃ root, Hashmap.marshal (valueCodecEnc (fun x => encode env f t x Builder.empty)) n kvs = .ok root ∧
+      root.ty = 0 ∧ Hashmap.unmarshal (valueCodecDec (fun vs => decode env f t vs)) n root = .ok kvs ∧
+      mapMOutcome (fun (kv : Hashmap.Key × Val) =>
+        (decode env f k { bits := kv.1 }).bind fun r => .ok r.1) kvs = .ok ks ∧
+      dictVal ks (kvs.map (·.2)) = v := by
+  simp only [dictDom, hp] at hd
+  simp only [Bool.and_eq_true, beq_iff_eq, List.all_eq_true] at hd
+  obtain ⟨⟨⟨⟨⟨⟨hlen, hshape⟩, hkd⟩, hvd⟩, hkr⟩, hkb⟩, hvfit⟩ := hd
+  rw [hkb'] at hkb
+  simp only [Bool.and_eq_true, List.all_eq_true, beq_iff_eq] at hkb
+  have hklen : kbits.length = vs.length := by rw [mapM_length _ _ _ hkb']; exact hlen
+  obtain ⟨hk1, hk2⟩ := zipKV_spec kbits vs kvs hklen hz
+  -- every value round-trips through a fresh cell
+  have hval : ∀ x ∈ vs, ∃ vb, encode env f t x Builder.empty = .ok vb ∧
+      vb.bits.length + n + 2 + Hashmap.minBitsRequired n ≤ 1023 ∧ vb.refs.length ≤ 4 ∧
+      ∃ s', decode env f t { bits := vb.bits, refs := vb.refs } = .ok (x, s') := by
+    intro x hx
+    have hf := hvfit x hx
+    split at hf
+    · rename_i vb hvb
+      simp only [Bool.and_eq_true, decide_eq_true_eq] at hf
+      obtain ⟨xs, rs, hb, hrt⟩ := h.enc t x _ vb hwt (hvd x hx) hvb
+      obtain ⟨s', hs', _⟩ := hrt {} rfl (Or.inr ⟨rfl, rfl, rfl⟩)
+      refine ⟨vb, hvb, hf.1, hf.2, s', ?_⟩
+      rw [empty_prepend] at hs'
+      rw [hb]; simpa [Builder.app, Builder.empty] using hs'
+    · cases hf
+  obtain ⟨root, hm, hty, hu⟩ := Hashmap.dict_roundtrip
+    (valueCodecEnc (fun x => encode env f t x Builder.empty))
+    (valueCodecDec (fun vs => decode env f t vs)) (dictPay env f t) n kvs
+    (by
+      intro hnil; subst hnil
+      simp only [List.map_nil] at hk1
+      rw [← hk1] at hkb'
+      have := mapM_length _ _ _ hkb'
+      cases ks with
+      | nil => simp at hemp
+      | cons _ _ => simp at this)
+    (fun kv hkv => hkb.1 kv.1 (by rw [← hk1]; exact List.mem_map_of_mem hkv))
+    (sorted_of_ascending kvs (by rw [hk1]; exact hkb.2))
+    (by
+      intro kv hkv
+      obtain ⟨vb, hvb, h1, h2, s', hs'⟩ := hval kv.2 (by rw [← hk2]; exact List.mem_map_of_mem hkv)
+      have hp : dictPay env f t kv.2 = (vb.bits, vb.refs) := by simp only [dictPay, hvb]
+      rw [hp]
+      refine ⟨?_, h1, h2, ?_⟩
+      · simp only [valueCodecEnc, hvb, Outcome.bind]
+      · simp only [valueCodecDec, hs', Outcome.bind])
+  refine ⟨root, hm, hty, hu, ?_, ?_⟩
+  · rw [mapM_map (fun (kb : Hashmap.Key) => (decode env f k { bits := kb }).bind fun r => .ok r.1) (·.1) kvs, hk1]
+    refine mapM_inverse _ _ ks kbits ?_ hkb'
+    intro kv hkv kb hkb2
+    obtain ⟨kbld, hkbld, hkb3⟩ := bind_ok_inv hkb2
+    cases hkb3
+    have hr := hkr kv hkv
+    rw [hkbld] at hr
+    simp only [List.isEmpty_iff] at hr
+    obtain ⟨xs, rs, hb, hrt⟩ := h.enc k kv _ kbld hwk (hkd kv hkv) hkbld
+    obtain ⟨s', hs', _⟩ := hrt {} rfl (Or.inr ⟨rfl, rfl, rfl⟩)
+    rw [empty_prepend] at hs'
+    have hxs : kbld.bits = xs := by rw [hb]; simp [Builder.app, Builder.empty]
+    have hrs : rs = [] := by rw [hb] at hr; simpa [Builder.app, Builder.empty] using hr
+    subst hrs
+    rw [hxs, hs']; rfl
+  · rw [hk2]
+    unfold dictParts at hp
+    unfold dictShapeOk at hshape
+    split at hp
+    · cases hp; simp at hemp
+    · cases hp
+      simp only [Bool.and_eq_true, Bool.not_eq_true'] at hshape
+      simp only [dictVal, hshape.2, Bool.false_eq_true, ↓reduceIte, Val.list,
+        list_toList_id _ hshape.1.1, list_toList_id _ hshape.1.2]
+    · cases hp
+
+theorem enc_dictE (h : Inv env f) (k t : Ty) (v : Val) (b b' : Builder) (hw : wfb env (.dictE k t) = true)
+    (hd : inDom env (f + 1) (.dictE k t) v = true) (he : encode env (f + 1) (.dictE k t) v b = .ok b') :
+    ∃ xs rs, b' = b.app xs rs ∧ RT (decode env (f + 1) (.dictE k t)) (NG env (.dictE k t)) v xs rs := by
+  simp only [wfb, Bool.and_eq_true, Option.isSome_iff_exists] at hw
+  obtain ⟨⟨⟨n, hn⟩, hwk⟩, hwt⟩ := hw
+  simp only [inDom, hn] at hd
+  simp only [encode, hn] at he
+  cases hp : dictParts v with
+  | none => simp [dictDom, hp] at hd
+  | some p =>
+    obtain ⟨ks, vs⟩ := p
+    simp only [hp] at he
+    by_cases hemp : ks.isEmpty = true
+    · -- the empty dictionary: hme_empty$0
+      rw [if_pos hemp] at he
+      simp only [Builder.writeBit] at he
+      have hb := Builder.writeBits_ok he
+      have hv : v = .nil := by
+        simp only [dictDom, hp, Bool.and_eq_true] at hd
+        have hshape := hd.1.1.1.1.1.2
+        unfold dictParts at hp
+        unfold dictShapeOk at hshape
+        split at hp
+        · rfl
+        · cases hp
+          simp only [Bool.and_eq_true, Bool.not_eq_true'] at hshape
+          rw [hshape.2] at hemp; cases hemp
+        · cases hp
+      subst hv
+      refine ⟨_, [], hb, RTs.toRT ?_ _⟩
+      intro s hs
+      have := Slice.readBit_prepend s false [] []
+      simp only [decode, decodeDictE, Slice.prepend_isLibrary, hs, Bool.false_eq_true, ↓reduceIte, this,
+        bind, Outcome.bind, pure, Slice.prepend_nil, Bool.not_false]
+    · rw [if_neg hemp] at he
+      obtain ⟨b1, hb1, he⟩ := bind_ok_inv he
+      simp only [Builder.writeBit] at hb1
+      have hb1 := Builder.writeBits_ok hb1
+      obtain ⟨kbits, hkb', he⟩ := bind_ok_inv he
+      cases hz : zipKV kbits vs with
+      | none => rw [hz] at he; cases he
+      | some kvs =>
+        rw [hz] at he
+        obtain ⟨root, hm, hty, hu, hkeys, hv⟩ := dict_core h k t n hwk hwt v ks vs hp hd hemp kbits hkb' kvs hz
+        simp only [hm] at he
+        have hb' := Builder.addRef_ok he
+        subst hb1
+        refine ⟨[true], [root], ?_, RTs.toRT ?_ _⟩
+        · rw [hb']; simp [Builder.app]
+        · intro s hs
+          have h1 := Slice.readBit_prepend s true [] [root]
+          have h2 := Slice.nextRef_prepend s [] root []
+          have h3 : (Slice.ofCell root).isPruned = false := by
+            rw [ofCell_isPruned, cellTy_eq, hty]; rfl
+          simp only [Outcome.bind] at hkeys
+          simp only [decode, decodeDictE, Slice.prepend_isLibrary, hs, Bool.false_eq_true, ↓reduceIte, h1, h2, h3, hn, hu,
+            bind, Outcome.bind, pure, Slice.prepend_nil, Bool.not_true, hkeys, hv]
+
+theorem toList_list : ∀ (l : List Val), (Val.list l).toList = l
+  | [] => rfl
+  | a :: t => by simp [Val.list, Val.toList, toList_list t]
+
+theorem dictParts_dictVal (ks vs : List Val) (h : ks.isEmpty = true → vs = []) :
+    dictParts (dictVal ks vs) = some (ks, vs) := by
+  unfold dictVal
+  by_cases he : ks.isEmpty = true
+  · rw [if_pos he]
+    have := h he
+    subst this
+    cases ks with
+    | nil => rfl
+    | cons _ _ => simp at he
+  · rw [if_neg he]
+    simp only [Val.list, dictParts, toList_list]
+
+theorem hlItems_values : ∀ (v : Val) (i : Nat) (r : List Val × List Val), hlItems i v = some r →
+    hlFromValues r.2 = some v ∧ (r.1.isEmpty = true → r.2 = [])
+  | .nil, i, r, h => by
+    simp only [hlItems] at h; cases h
+    exact ⟨rfl, fun _ => rfl⟩
+  | .cons (.cons (.cons (.cell c) .nil) (.cons (.int mode) .nil)) rest, i, r, h => by
+    simp only [hlItems] at h
+    split at h
+    · rename_i hm
+      cases hr : hlItems (i + 1) rest with
+      | none => simp [hr] at h
+      | some r0 =>
+        simp only [hr, Option.map_some, Option.some.injEq] at h
+        subst h
+        obtain ⟨ih, _⟩ := hlItems_values rest (i + 1) r0 hr
+        refine ⟨?_, fun he => by simp at he⟩
+        have hmod : mode.toNat % 2 ^ 8 = mode.toNat := Nat.mod_eq_of_lt (by omega)
+        have hlen : ¬ (natToBits 8 mode.toNat).length < 8 := by simp
+        simp only [hlFromValues, hlen, ↓reduceIte, ih, Option.map_some]
+        have : List.take 8 (natToBits 8 mode.toNat) = natToBits 8 mode.toNat := by
+          apply List.take_of_length_le; simp
+        rw [this, bitsToNat_natToBits, hmod, Int.toNat_of_nonneg hm.1]
+    · cases h
+
+
+/-- wallet.PayloadHighload: the dictionary round trip under the conversion of the message list -/
+theorem enc_highload (h : Inv env f) (v : Val) (b b' : Builder)
+    (hd : inDom env (f + 1) .highload v = true) (he : encode env (f + 1) .highload v b = .ok b') :
+    ∃ xs rs, b' = b.app xs rs ∧ RT (decode env (f + 1) .highload) (NG env .highload) v xs rs := by
+  simp only [inDom, Bool.and_eq_true, decide_eq_true_eq] at hd
+  obtain ⟨⟨hlen, _⟩, hd⟩ := hd
+  simp only [encode, if_neg (by omega : ¬ Prim.valLen v > 254)] at he
+  cases hdv : hlToDict v with
+  | none => simp [hdv] at hd
+  | some d =>
+    simp only [hdv] at hd he
+    have hwd : wfb env (.dictE (.uint 16) (.prim .any)) = true := by simp [wfb, keyWidth, Prim.wf, Prim.proved]
+    obtain ⟨xs, rs, hb, hrt⟩ := h.enc _ d b b' hwd hd he
+    refine ⟨xs, rs, hb, ?_⟩
+    intro s hs hc
+    obtain ⟨s', hs', hsame⟩ := hrt s hs (Or.inl ⟨1, rfl⟩)
+    have hsame := hsame ⟨1, rfl⟩
+    subst hsame
+    refine ⟨s', ?_, fun _ => rfl⟩
+    simp only [hlToDict] at hdv
+    obtain ⟨r, hr, hdr⟩ := Option.map_eq_some_iff.1 hdv
+    obtain ⟨hvals, hemp⟩ := hlItems_values v 0 r hr
+    subst hdr
+    simp only [decode, Slice.prepend_isLibrary, hs, Bool.false_eq_true, ↓reduceIte, hs', bind, Outcome.bind,
+      dictParts_dictVal r.1 r.2 hemp, hvals, pure]
+
+/-- `Hashmap` written into the current cell: the chunk is the content of the root of C05's tree -/
+theorem enc_dict (h : Inv env f) (k t : Ty) (v : Val) (b b' : Builder) (hw : wfb env (.dict k t) = true)
+    (hd : inDom env (f + 1) (.dict k t) v = true) (he : encode env (f + 1) (.dict k t) v b = .ok b') :
+    ∃ xs rs, b' = b.app xs rs ∧ RT (decode env (f + 1) (.dict k t)) (NG env (.dict k t)) v xs rs := by
+  simp only [wfb, Bool.and_eq_true, Option.isSome_iff_exists] at hw
+  obtain ⟨⟨⟨n, hn⟩, hwk⟩, hwt⟩ := hw
+  simp only [inDom, hn, Bool.and_eq_true, Bool.not_eq_true'] at hd
+  obtain ⟨hd, hnil⟩ := hd
+  simp only [encode, hn] at he
+  cases hp : dictParts v with
+  | none => simp [dictDom, hp] at hd
+  | some p =>
+    obtain ⟨ks, vs⟩ := p
+    simp only [hp] at he
+    have hshape : dictShapeOk v = true ∧ ks.length = vs.length := by
+      simp only [dictDom, hp, Bool.and_eq_true, beq_iff_eq] at hd
+      exact ⟨hd.1.1.1.1.1.2, hd.1.1.1.1.1.1⟩
+    have hemp : ¬ ks.isEmpty = true := by
+      have hs := hshape.1
+      unfold dictParts at hp
+      unfold dictShapeOk at hs
+      split at hp
+      · simp [Val.isNil] at hnil
+      · cases hp
+        simp only [Bool.and_eq_true, Bool.not_eq_true'] at hs
+        simp [hs.2]
+      · cases hp
+    have hvemp : vs.isEmpty = false := by
+      cases vs with
+      | nil =>
+        cases ks with
+        | nil => simp at hemp
+        | cons _ _ => simp at hshape
+      | cons _ _ => rfl
+    rw [hvemp] at he
+    simp only [Bool.false_eq_true, ↓reduceIte] at he
+    obtain ⟨kbits, hkb', he⟩ := bind_ok_inv he
+    cases hz : zipKV kbits vs with
+    | none => rw [hz] at he; cases he
+    | some kvs =>
+      rw [hz] at he
+      obtain ⟨root, hm, hty, hu, hkeys, hv⟩ := dict_core h k t n hwk hwt v ks vs hp hd hemp kbits hkb' kvs hz
+      simp only [hm] at he
+      obtain ⟨root', hroot, he⟩ := bind_ok_inv he
+      cases hroot
+      obtain ⟨b1, hb1, he⟩ := bind_ok_inv he
+      have e1 := Builder.writeBits_ok hb1
+      have e2 := foldl_addRef_ok _ _ _ he
+      refine ⟨root.bits, root.refs, by rw [e2, e1, Builder.app_app]; simp, ?_⟩
+      intro s hs hc
+      rcases hc with hng | ⟨hb0, hr0, hpr⟩
+      · obtain ⟨g, hg⟩ := hng
+        cases g <;> simp [greedyb] at hg
+      · refine ⟨dictRest n (fun vs => decode env f t vs) (s.prepend root.bits root.refs), ?_, fun hng => ?_⟩
+        · have hpr' : (s.prepend root.bits root.refs).isPruned = false := by
+            simpa [Slice.prepend, Slice.isPruned] using hpr
+          have hcell : Hashmap.unmarshal (valueCodecDec (fun vs => decode env f t vs)) n
+              (s.prepend root.bits root.refs).toCell = .ok kvs := by
+            rw [← hu]
+            obtain ⟨ty, mask, bits, refs⟩ := root
+            simp only [Slice.prepend, Slice.toCell, hb0, hr0, List.append_nil, Cell.bits, Cell.refs]
+            have hty' : ty = 0 := hty
+            subst hty'
+            exact Hashmap.unmarshal_root_irrel _ n _ _ _ _ bits refs
+              (by simpa [Slice.isPruned] using hpr) (by simpa [Slice.isLibrary] using hs) (by decide) (by decide)
+          simp only [Outcome.bind] at hkeys
+          simp only [decode, decodeDict, Slice.prepend_isLibrary, hs, Bool.false_eq_true, ↓reduceIte, hpr', hn, hcell,
+            bind, Outcome.bind, pure, hkeys, hv]
+        · obtain ⟨g, hg⟩ := hng
+          cases g <;> simp [greedyb] at hg
+
+
 theorem Inv.succ (hEnv : EnvWF env) (hp : ∀ p, p.proved = true → PrimOK p) (h : Inv env f) : Inv env (f + 1) := by
   refine ⟨?_, ?_, ?_⟩
   · intro T v b b' hw hd he
@@ -914,7 +1290,14 @@ theorem Inv.succ (hEnv : EnvWF env) (hp : ∀ p, p.proved = true → PrimOK p) (
     | refT t => exact enc_refT h t v b b' hw hd he
     | prim p => exact enc_prim hp p v b b' hw hd he
     | vmStack e => simp [wfb] at hw
-    | dictE id => exact enc_dictE id v b b' hd he
+    | chain e => simp [wfb] at hw
+    | dictAugE k t x => simp [wfb] at hw
+    | dictAug k t x => simp [wfb] at hw
+    | binTree t => simp [wfb] at hw
+    | custom id body aux => simp [wfb] at hw
+    | highload => exact enc_highload h v b b' hd he
+    | dictE k t => exact enc_dictE h k t v b b' hw hd he
+    | dict k t => exact enc_dict h k t v b b' hw hd he
     | encErr id => simp [encode] at he
     | «opaque» id => simp [wfb] at hw
   · intro n ft T rest v b b' hw hd he
